@@ -96,7 +96,7 @@ def _cases(draw, tier):
         elif len(toks) >= 2:
             i = min(i, len(toks) - 2)
             toks = toks[:i] + [toks[i + 1], toks[i]] + toks[i + 2:]
-    return {'kind': 'tok', 'layer': layer, 'tokens': toks, 'form': draw(st.integers(0, 2))}
+    return {'kind': 'tok', 'layer': layer, 'tokens': toks, 'form': draw(st.integers(0, 3))}
 
 
 def strategy(tier):
@@ -232,7 +232,16 @@ def execute(case, ctx):
     else:
         # directly after a data directive a text that begins with a quote may be a (well-formed) string instead
         form = 1 if case['form'] == 0 and text.lstrip().startswith(("'", '"')) else case['form']
-        got, src, res = _run_cli(text, form)
+        if form == 3 and (any(c in text for c in '<>=!') or not text.strip()):
+            form = 1          # comparison operators belong to the condition syntax, not to the operand
+        if form == 3:
+            # as the (bare) operand of a conditional directive: accepted means it was given a truth value
+            lines = [f'#define {k} {v}' for k, v in LABELS.items()] + [f'#if {text}', '.byte 1', '#else', '.byte 2', '#endif']
+            src = '\n'.join(lines) + '\n'
+            res = runner.run_forked(['compile', '-c', 'isa.json', '-o', 'out.bin', 'p.asm'], {'isa.json': ISA_TEXT, 'p.asm': src})
+            got = ('value', res.outputs.get('out.bin', b'').hex()) if res.klass == 'accepted' else (res.klass, res.exit_code)
+        else:
+            got, src, res = _run_cli(text, form)
         detail = {'text': text, 'got': list(got), 'source': src, 'run': res.brief()}
     if got[0] == 'value':
         findings.append(Finding('C07/malformed-given-a-value', detail))
